@@ -197,11 +197,18 @@ func runC14_8(c *core.Ctx) {
 					return
 				}
 				ast.Inspect(blk, func(m ast.Node) bool {
+					if inner, ok := m.(*ast.IfStmt); ok && mentionsField(f, inner.Cond, counts) {
+						return false // decided by that test (visited on its own)
+					}
 					as, ok := m.(*ast.AssignStmt)
 					if !ok {
 						return true
 					}
-					for _, l := range as.Lhs {
+					for j, l := range as.Lhs {
+						// the decision is between dropping/creating a row and clearing one cell: table[Y] = nil / make(…), table[Y][…] = nil
+						if len(as.Rhs) != len(as.Lhs) || !(isNilExpr(f, as.Rhs[j]) || isMakeCall(f, as.Rhs[j])) {
+							continue
+						}
 						e := ast.Unparen(l)
 						var rowY ast.Expr
 						if ie, ok := e.(*ast.IndexExpr); ok {
@@ -482,4 +489,37 @@ func runC14_9(c *core.Ctx) {
 		}
 	}
 	_ = sites
+}
+
+func mentionsField(f *fn, e ast.Node, fld *types.Var) bool {
+	found := false
+	ast.Inspect(e, func(m ast.Node) bool {
+		if x, ok := m.(ast.Expr); ok && flow.FieldOf(f.Info, x) == fld {
+			found = true
+		}
+		return !found
+	})
+	return found
+}
+
+func isNilExpr(f *fn, e ast.Expr) bool {
+	id, ok := ast.Unparen(e).(*ast.Ident)
+	if !ok {
+		return false
+	}
+	_, isNil := f.Info.Uses[id].(*types.Nil)
+	return isNil
+}
+
+func isMakeCall(f *fn, e ast.Expr) bool {
+	call, ok := ast.Unparen(e).(*ast.CallExpr)
+	if !ok {
+		return false
+	}
+	id, ok := call.Fun.(*ast.Ident)
+	if !ok {
+		return false
+	}
+	b, ok := f.Info.Uses[id].(*types.Builtin)
+	return ok && b.Name() == "make"
 }
